@@ -12,6 +12,7 @@ import ast
 from ..arith import CMP_ORACLE, ARITH_ORACLE, L, R, SymExec, Verdict, classify, fold_paths, operator_literals, show, simp
 from ..core import AnalysisError, Func, Repo, Report, call_name, norm, parents_map, walk_local
 from ..dataflow import DefUse
+from .util import canon, cguards, stmt_of
 
 DSL_OPS = set(ARITH_ORACLE) | set(CMP_ORACLE) | {"/", "%", "&&", "||"}
 SCOPE = (".lowering.", ".ir.optimizer", ".parsing.transformer", ".semantic.")
@@ -108,6 +109,17 @@ def run(repo: Repo, rep: Report, tier: str) -> None:
                         tainted = True
                 for sub in _expand_nodes(du, o):
                     if isinstance(sub, ast.Attribute) and sub.attr == "value" and isinstance(sub.ctx, ast.Load):
+                        tainted = True
+            if not tainted:
+                # a lowered value known to be a compile-time integer on this path (`isinstance(ref, int)` holds for the statement)
+                try:
+                    gs_int = cguards(f, stmt_of(f, n))
+                except Exception:
+                    gs_int = []
+                cf = canon(f)
+                for o in operands:
+                    ot = cf.text(o)
+                    if any(pol and g == f"isinstance({ot}, int)" for g, pol in gs_int) and ("lower_expr" in ot or "lower_" in ot):
                         tainted = True
             if not tainted:
                 continue
